@@ -133,6 +133,26 @@ func OutBool(name string, v bool)    { Outputs[key("out:"+name)] = fmt.Sprint(v)
 func OutBytes(name string, b []byte) { Outputs[key("out:"+name)] = fmt.Sprintf("%x", b) }
 func OutString(name string, s string) { Outputs[key("out:"+name)] = fmt.Sprintf("%x", s) }
 
+// In reports whether x equals one of vals (no short-circuit branching under the engine).
+func In(x uint64, vals ...uint64) bool {
+	for _, v := range vals {
+		if x == v {
+			return true
+		}
+	}
+	return false
+}
+
+// InStr reports whether s equals one of vals.
+func InStr(s string, vals ...string) bool {
+	for _, v := range vals {
+		if s == v {
+			return true
+		}
+	}
+	return false
+}
+
 // Epoch marks a new allocation epoch (objects allocated afterwards are "fresh").
 func Epoch() {}
 
